@@ -3105,7 +3105,9 @@ where
         let reserve = if self.is_empty() {
             iter.size_hint().0
         } else {
-            (iter.size_hint().0 + 1) / 2
+            // half the hint, rounded up -- without overflowing for a hint of usize::MAX
+            let hint = iter.size_hint().0;
+            hint / 2 + hint % 2
         };
         self.reserve(reserve);
         iter.for_each(move |(k, v)| {
